@@ -229,30 +229,15 @@ Proof.
 Qed.
 Lemma lower_numeric_first b : numeric_first (lower b) = numeric_first b.
 Proof. unfold numeric_first, is_digit, lower. destruct ((65 <=? b) && (b <=? 90)) eqn:E; lia. Qed.
-(* whether a token is a symbol is decided on its lower-cased spelling *)
-Lemma resolve_token_sym (tok tok' : list byte) : map lower tok = map lower tok' -> reads_as_symbol tok = true ->
-  resolve_token tok' = OSym tok'.
-Proof.
-  unfold reads_as_symbol, resolve_token. cbv zeta. intros <-. set (buf := map lower tok).
-  destruct (starts_with_at buf); [reflexivity|]. unfold resolve_buf, int_obj.
-  destruct (int_rx buf); [discriminate|].
-  destruct (float_rx None buf || float_rx (Some 101) buf); [discriminate|].
-  destruct (float_rx (Some 100) buf); [discriminate|]. destruct (float_rx (Some 115) buf); [discriminate|].
-  destruct (float_rx (Some 102) buf); [discriminate|]. destruct (float_rx (Some 108) buf); [discriminate|].
-  destruct (ratio_rx buf); [|reflexivity]. destruct (split_slash buf) as [ns ds]. cbv zeta.
-  destruct (0 <? int_val 10 ds)%Z; [discriminate|reflexivity].
-Qed.
 (* a name Symbol.needPipes leaves without bars is resolved to a symbol, whatever the print case *)
 Lemma need_pipes_false_resolves c (name : list byte) : need_pipes name = false ->
   resolve_token (case_name (p_case c) name) = OSym (case_name (p_case c) name).
 Proof.
   unfold need_pipes. intros H. apply orb_false_iff in H as [_ H]. destruct name as [|b r]; [destruct (p_case c); reflexivity|].
-  destruct (numeric_first b) eqn:Ef.
-  - cbn [andb] in H. apply negb_false_iff in H. apply (resolve_token_sym (b :: r)); [|exact H].
-    symmetry. apply map_lower_case.
-  - apply resolve_symbolic. rewrite map_lower_case. cbn [map].
-    destruct (numeric_like (lower b :: map lower r)) eqn:E; [|reflexivity].
-    apply numeric_like_first in E. rewrite lower_numeric_first in E. congruence.
+  apply resolve_symbolic. rewrite map_lower_case.
+  destruct (numeric_first b) eqn:Ef; [exact H|]. cbn [map].
+  destruct (numeric_like (lower b :: map lower r)) eqn:E; [|reflexivity].
+  apply numeric_like_first in E. rewrite lower_numeric_first in E. congruence.
 Qed.
 Lemma keyword_resolves c (r : list byte) : resolve_token (case_name (p_case c) (58 :: r)) = OSym (case_name (p_case c) (58 :: r)).
 Proof.
